@@ -502,7 +502,8 @@ def optimize_fn(k, s, combine):
                    "derived_union": lambda: la.union_preserve_overlaps(far)}[combine]()
             D = blocks_of(der)
             if type(der) is not CompoundInterval:
-                return AND(mult(p, D) == mult(p, A), NOT(der.is_overlapping))
+                extra = ITE(AND(far.start <= p, p < far.end), 1, 0) if combine == "derived_union" else 0  # the union also holds the far-away operand
+                return AND(mult(p, D) == mult(p, A) + extra, NOT(der.is_overlapping))
             spec_ov = OR(*[AND(D[i][0] < D[j][1], D[j][0] < D[i][1]) for i in range(len(D)) for j in range(i + 1, len(D))]) if len(D) > 1 else False
             conds = [IFF(der.is_overlapping, spec_ov)]
             R = blocks_of(der.merge_overlapping())
